@@ -38,6 +38,8 @@ STREAMS = {
         "shp4": ("shapes", "4 5 2"),
         "shp3": ("shapes", "3 6 6"),
         "shp5": ("shapes", "5 2 2"),
+        "mult": ("mult", 2),
+        "mult_e": ("mult", -2),
         "rand_cw": ("gen", ("cw", 3000, 14)),
         "rand_cwf": ("gen", ("cwf", 3000, 10)),
         "rand_cws": ("gen", ("cws", 3000, 12)),
@@ -68,6 +70,8 @@ STREAMS = {
         "shp4": ("shapes", "4 5 8"),
         "shp5": ("shapes", "5 4 2"),
         "shp3": ("shapes", "3 9 6"),
+        "mult": ("mult", 3),
+        "mult_e": ("mult", -3),
         "rand_cw": ("gen", ("cw", 40000, 20)),
         "rand_cwf": ("gen", ("cwf", 40000, 14)),
         "rand_cws": ("gen", ("cws", 40000, 16)),
@@ -112,6 +116,10 @@ def stream_lines(name, tier, seed):
         lines = [l for l in p.stdout.decode().strip().split("\n") if l]
         return [name + "_" + l for l in lines], {"scope": "all fully recorded adoption graphs: objects, max distinct edges (one may be doubled), drop orders = " + arg,
                                                   "exhaustive": True, "states": 0, "transitions": len(lines)}
+    if kind == "mult":
+        lines = mult_lines(abs(arg), elide=arg < 0)
+        return [name + "_" + l for l in lines], {"scope": "owner/target pair: m<=%d adoptions each way with the handles stored, every number of %s, five ways of dropping the rest" % (abs(arg), "ELIDED unadopts (handle taken out and dropped, no unadopt: C13)" if arg < 0 else "matched unadopts (handle taken out, unadopt, handle dropped)"),
+                                                  "exhaustive": True, "states": 0, "transitions": len(lines)}
     if kind == "gen":
         prof, count, ln = arg
         # one PRNG state per stream, derived from the seed and the stream name
@@ -119,6 +127,46 @@ def stream_lines(name, tier, seed):
         p = subprocess.run([P.DRIVER, "gen", str(s), str(count), prof, str(ln)], stdout=subprocess.PIPE)
         return [name + "_" + l for l in p.stdout.decode().strip().split("\n")], {"profile": prof, "prng_seed": s}
     raise ValueError(kind)
+
+
+def mult_lines(mmax, elide=False):
+    """pair multiplicities (C01, C08, C13, C14): object 0 adopts object 1 m times and 1 adopts 0 n times, every
+    handle stored in its owner and recorded; then u (resp. v) of them are unadopted properly (handle taken
+    out of the owner, unadopt, handle dropped); then the remaining program handles are dropped in five
+    different ways, with a clone-and-drop of one end in between (a drop that must trace but not collect)
+    and a look at what the other end can still reach. Fully recorded and disciplined throughout."""
+    out = []
+    tails = [
+        ["drop 1", "clone r0 2", "drop 2", "sc r0", "deref r0.0", "drop 0"],
+        ["clone r0 2", "drop 2", "drop 1", "sc r0", "drop 0"],
+        ["drop 0", "clone r1 2", "drop 2", "sc r1", "deref r1.0", "drop 1"],
+        ["clone r1 2", "drop 2", "drop 0", "sc r1", "drop 1"],
+        ["down r0 4", "down r1 5", "drop 0", "drop 1", "up r4 2", "up r5 3"],
+    ]
+    k = 0
+    for m in range(0, mmax + 1):
+        for n in range(0, mmax + 1):
+            if m + n == 0:
+                continue
+            pre = ["new 0", "new 1"]
+            for i in range(m):
+                pre += ["clone r1 7", "adopt r0 r7", "store 7 r0 %d" % i]
+            for j in range(n):
+                pre += ["clone r0 7", "adopt r1 r7", "store 7 r1 %d" % j]
+            for u in range(0, m + 1):
+                for v in range(0, n + 1):
+                    if elide and u + v == 0:
+                        continue
+                    mid = []
+                    for i in range(u):                      # the highest slots first
+                        mid += ["take r0 %d 6" % (m - 1 - i)] + ([] if elide else ["unadopt r0 r6"]) + ["drop 6"]
+                    for j in range(v):
+                        mid += ["take r1 %d 6" % (n - 1 - j)] + ([] if elide else ["unadopt r1 r6"]) + ["drop 6"]
+                    for ti, t in enumerate(tails):
+                        t2 = [x for x in t if not (x == "deref r0.0" and m - u == 0) and not (x == "deref r1.0" and n - v == 0)]
+                        out.append("%sm%dn%du%dv%dt%d_%d|A|%s" % ("e" if elide else "", m, n, u, v, ti, k, ";".join(pre + mid + t2)))
+                        k += 1
+    return out
 
 
 OP_RE = re.compile(r"(?:^|;)\s*([a-z]+)")
